@@ -471,7 +471,7 @@ func (w *lineWriter) tx(t *MTx) {
 	}
 	w.lex("date", "", t.Date.String(), "")
 	if t.Date2 != nil {
-		w.raw("=")
+		w.lex("op", "date2", "=", "")
 		w.lex("date2", "", t.Date2.String(), "")
 	}
 	if t.Status != "" {
